@@ -12,7 +12,7 @@ enabled extensions — table rows, `[^1]` and `[^1]: …`, `*[A]: b`, `!!! note`
 fences — and none of it is interpreted.  Fenced blocks with extensions are in `Props/C03Fenced.lean`.
 
 Only property statements live here; the vocabulary is in `Spec/CodeLaw.lean`, the helper lemmas in
-`Lemmas/CodeX.lean`, `Lemmas/CodeXTree.lean`, `Lemmas/CodeXSpan.lean`, `Lemmas/CodeXPara.lean`.
+`Lemmas/CodeX.lean`, `Lemmas/CodeXTree.lean`, `Lemmas/CodeXSpan.lean`, `Lemmas/CodeXPara.lean`, `Lemmas/CodeXAtomic.lean`, `Lemmas/CodeXAbbr.lean`.
 
 Why nothing leaks (what the proofs follow):
 * block parser: `CodeBlockProcessor` (80) is asked before table (75), deflist (25), footnote (17), abbr (16); of the
@@ -34,9 +34,16 @@ Two hypotheses beyond those of `Props/C03.lean`:
 Part 1.  `C03X_block_top`, `C03X_block_extensions_inert`.
 Part 2.  `C03X_span_top`, `C03X_span_extensions_inert`; what `attr_list` does do next to a span: `C03X_span_attr_list_boundary`.
 Part 3.  `C03X_block_after_paragraph`, `C03X_block_after_paragraph_inert`.
+Part 4.  ANY tree, wherever the code sits (`codeTexts`: the `AtomicString` texts of the `code` elements of a tree in
+         document order): `C03X_abbr_keeps_code` (any abbreviation table), `C03X_attr_list_keeps_code`,
+         `C03X_toc_keeps_code`, `C03X_unescape_keeps_code`, `C03X_late_stages_keep_code` (attr_list 8, abbr 7, toc 5,
+         unescape 0 together); the inline processor over the extended pattern table: `C03X_inline_skips_atomic`,
+         `C03X_stash_skips_atomic`.
+Part 5.  an abbreviation DEFINED in the document and occurring in the code: `C03X_block_after_abbr_definition`,
+         `C03X_abbr_wraps_outside_code_only`.
 -/
 import MdVerif.Props.C03
-import MdVerif.Lemmas.CodeXPara
+import MdVerif.Lemmas.CodeXAbbr
 
 namespace MdVerif.CodeX
 open Py Block CodeLaw Pipeline PipelineX
@@ -230,5 +237,141 @@ theorem C03X_block_after_paragraph_inert (x : Exts) (tab : Nat) (htab : 0 < tab)
       Pipeline.convert { tab := tab, fmt := fmt } (paraCodeSource tab p first more) := by
   rw [C03X_block_after_paragraph x tab htab fmt p first more hp hpne h1 h2 hadm, ← convertX_core,
     C03X_block_after_paragraph {} tab htab fmt p first more hp hpne h1 h2 rfl]
+
+/-! ### Part 4: any tree — the tree processors of the extensions never change a code text -/
+
+/-- **`AbbrTreeprocessor` never wraps anything inside code.**  With ANY table of abbreviations, on ANY tree — code
+    blocks in lists, quotes, admonitions, footnotes, code spans in headings, cells, definitions … — the texts of the
+    `code` elements (`codeTexts`: the `AtomicString`s, in document order) are what they were: `abbr` elements are put
+    around words of ordinary texts and tails, never into an `AtomicString`. -/
+theorem C03X_abbr_keeps_code (abbrs : List (Str × Str)) (root : Node) :
+    codeTexts (AbbrTree.run abbrs root) = codeTexts root :=
+  codeTexts_abbr abbrs root
+
+-- on a concrete tree: `HTML` is an abbreviation; the paragraph holds it in its text, in a code span and in the tail
+-- of the span: two `abbr` elements appear around the span, the span's text is untouched
+example : codeTexts (spanTreeP "the HTML spec ".toList "HTML".toList " HTML".toList) = ["HTML".toList] ∧
+    codeTexts (AbbrTree.run [("HTML".toList, "Hyper".toList)]
+      (spanTreeP "the HTML spec ".toList "HTML".toList " HTML".toList)) = ["HTML".toList] ∧
+    ((AbbrTree.run [("HTML".toList, "Hyper".toList)]
+      (spanTreeP "the HTML spec ".toList "HTML".toList " HTML".toList)).children.map
+        (fun p => p.children.map (fun c => c.tag))) =
+      [[.name "abbr".toList, .name "code".toList, .name "abbr".toList]] := by decide +kernel
+
+/-- **`AttrListTreeprocessor` never reads or changes a code text** (as long as `code` is not declared a block-level
+    element, which it is not by default): on ANY tree the texts of the `code` elements are what they were — an
+    attribute list is looked for in the text of block-level elements and in tails only.  (It may give a `code`
+    element attributes: `` `x`{: #i } ``, `C03X_span_attr_list_boundary`.) -/
+theorem C03X_attr_list_keeps_code (bl : List Str) (hbl : TreeProc.isBlockLevel bl (.name "code".toList) = false)
+    (root : Node) : codeTexts (AttrListTree.run bl root) = codeTexts root :=
+  codeTexts_attrList bl hbl root
+
+example : TreeProc.isBlockLevel TreeProc.defaultBlockLevel (.name "code".toList) = false := by decide
+
+/-- **`TocTreeprocessor` never changes a code text**: whenever it answers, on ANY tree, the texts of the `code`
+    elements are what they were — headings get ids, an element whose text is the marker `[TOC]` is replaced by the
+    table (never a `pre` or a `code`: `replace_marker` skips them, so `[TOC]` as code stays code), and the table
+    holds no `code` element -/
+theorem C03X_toc_keeps_code (env : TocTree.Env) (bl : List Str) (root r : Node)
+    (h : TocTree.run env bl root = .ok r) : codeTexts r = codeTexts root :=
+  codeTexts_toc env bl root r h
+
+-- on a concrete tree: a code block whose text is the marker comes back as it is
+example : TocTree.run { fmt := .xhtml, post := fun s => some s } TreeProc.defaultBlockLevel (codeTreeP "[TOC]\n".toList) =
+    .ok (codeTreeP "[TOC]\n".toList) := toc_codeTreeP _ _
+
+/-- `UnescapeTreeprocessor` never changes a code text, on any tree -/
+theorem C03X_unescape_keeps_code (n n' : Node) (h : TreeProc.unescapeTree n = some n') : codeTexts n' = codeTexts n :=
+  codeTexts_unescapeTree n n' h
+
+/-- **the stages after `prettify` together** — attr_list 8, abbr 7, toc 5, unescape 0, each enabled or not, in the
+    order and with the plumbing of `PipelineX.treeX`: on ANY tree `t` that `prettify` hands over, with any
+    abbreviation table, the tree `u` that goes to the serializer has the same `code` texts in the same order -/
+theorem C03X_late_stages_keep_code (attrList abbr toc : Bool) (bl : List Str)
+    (hbl : TreeProc.isBlockLevel bl (.name "code".toList) = false) (abbrs : List (Str × Str)) (env : TocTree.Env)
+    (t u : Node)
+    (h : (let t1 := if attrList then AttrListTree.run bl t else t
+          let t2 := if abbr then AbbrTree.run abbrs t1 else t1
+          match (if toc then TocTree.run env bl t2 else TocTree.R.ok t2) with
+          | .ok t3 => TreeProc.unescapeTree t3
+          | _ => none) = some u) :
+    codeTexts u = codeTexts t :=
+  codeTexts_lateStages attrList abbr toc bl hbl abbrs env t u h
+
+/-- **the inline processor with the extension patterns skips atomic text** (`C03_inline_skips_atomic` over the
+    pattern table with footnote 175, wikilink 75, nl 5): for an element whose text is an `AtomicString` the result of
+    `visitChildX` has the same text, still atomic, the same tag, attributes and children -/
+theorem C03X_inline_skips_atomic (xc : InlineX.XCfg) (child : Node) (v : InlineX.VisitX) (c' : Node) (tr : List Node)
+    (v' : InlineX.VisitX) (h : InlineX.visitChildX xc child v = some (c', tr, v')) (ha : child.textAtomic = true) :
+    c'.text = child.text ∧ c'.textAtomic = true ∧ c'.tag = child.tag ∧ c'.attrs = child.attrs ∧
+      c'.children = child.children :=
+  visitChildX_atomic xc child v c' tr v' h ha
+
+-- the hypotheses on a concrete input: the `code` element of a span full of extension syntax, every inline extension on
+example : ∃ r, InlineX.visitChildX { table := InlineX.table true true true, fnKeys := ["1".toList] }
+      (codeSpan "[^1] [[w]]".toList) { x := {} } = some r ∧ (codeSpan "[^1] [[w]]".toList).textAtomic = true :=
+  ⟨_, rfl, rfl⟩
+
+/-- **the stash keeps atomic elements as they are, whatever the table** (`C03_stash_skips_atomic` over the extended
+    table): when the match of ANY entry of the table yields an element with atomic text (the backtick pattern's
+    `<code>`), none of the patterns — core, footnote, wikilink, nl2br — is run on it; it goes into the stash
+    unchanged and the match is replaced by its placeholder -/
+theorem C03X_stash_skips_atomic (xc : InlineX.XCfg) (hi : InlineX.HIX) (pi : Nat) (k : InlineX.PatK) (data : Str)
+    (si : Nat) (x x' : InlineX.XSt) (n : Node) (s : Nat) (e : Int) (hk : xc.table[pi]? = some k)
+    (h : InlineX.findX xc k data si x = some (some ⟨.el n, s, e⟩, x'))
+    (h1 : n.text.isSome = true) (h2 : n.textAtomic = true) :
+    InlineX.applyPatternX xc hi pi data si x =
+      some (data.take s ++ Inline.placeholder x'.st.stash.length ++ Inline.pyDrop data e, true, 0,
+        { x' with st := { x'.st with stash := x'.st.stash ++ [.node n] } }) :=
+  applyPatternX_atomic xc hi pi k data si x x' n s e hk h h1 h2
+
+-- the hypotheses on a concrete input: the backtick pattern (entry 0 of every table) on a span full of extension syntax
+example : (InlineX.table true true true)[0]? = some (.core 0) ∧
+    InlineX.findX { table := InlineX.table true true true, fnKeys := ["1".toList] } (.core 0)
+      "a `[^1] [[w]]` c".toList 0 {} =
+      some (some ⟨.el (codeSpan (Code.codeEscape (strip "[^1] [[w]]".toList))), 2, 14⟩, {}) ∧
+    (codeSpan (Code.codeEscape (strip "[^1] [[w]]".toList))).text.isSome = true ∧
+    (codeSpan (Code.codeEscape (strip "[^1] [[w]]".toList))).textAtomic = true := by
+  refine ⟨rfl, ?_, rfl, rfl⟩
+  have := findX_span { table := InlineX.table true true true, fnKeys := ["1".toList] } 0 "a ".toList
+    "[^1] [[w]]".toList " c".toList {} (show ∀ c ∈ "a ".toList, c ≠ '`' ∧ c ≠ '\\' by decide) (by decide) (by decide)
+  simpa [spanData, ticks] using this
+
+/-! ### Part 5: an abbreviation defined in the document and occurring in the code -/
+
+/-- **the abbreviation table is not empty, the abbreviation occurs in the code, the code stays literal.**  The
+    document is an abbreviation definition `*[K]: T` (`K`, `T` words of ASCII letters), a blank line and an indented
+    code block of the domain of `C03X_block_top` — in which `K` may occur any number of times.  With `abbr` and any
+    subset of the other ten modelled extensions enabled, `Markdown.convert` returns exactly the code block of
+    `C03X_block_top`: the definition leaves no output, `AbbrTreeprocessor` runs with `K` in its table, and no
+    `<abbr>` appears in the code. -/
+theorem C03X_block_after_abbr_definition (x : Exts) (hab : x.abbr = true) (tab : Nat) (htab : 0 < tab) (fmt : Ser.Fmt)
+    (K T : Str) (first : List Str) (more : List (Nat × List Str))
+    (hK : isLetters K = true) (hT : isLetters T = true)
+    (h1 : isCodeRun first = true) (h2 : more.all (fun er => isCodeRun er.2) = true)
+    (hadm : (x.admonition && admNonAscii (paraCodeSource tab (abbrDef K T) first more ++ ['\n', '\n'])) = false) :
+    convertX x { tab := tab, fmt := fmt } (paraCodeSource tab (abbrDef K T) first more) =
+      .ok ("<pre><code>".toList ++ Code.codeEscape (trimSpec first more) ++ "\n</code></pre>".toList) :=
+  convertX_abbrCode x hab tab htab fmt K T first more hK hT h1 (fun er her => List.all_eq_true.1 h2 er her) hadm
+
+-- the hypotheses on a concrete input: every extension on; the abbreviation occurs three times in the code, once in
+-- a second definition
+example : everyExt.abbr = true ∧ 0 < 4 ∧ isLetters "HTML".toList = true ∧ isLetters "Hyper".toList = true ∧
+    isCodeRun ["the HTML spec".toList, "*[HTML]: x".toList] = true ∧
+    [(0, ["HTML".toList])].all (fun er => isCodeRun er.2) = true ∧
+    paraCodeSource 4 (abbrDef "HTML".toList "Hyper".toList) ["the HTML spec".toList, "*[HTML]: x".toList]
+      [(0, ["HTML".toList])] = "*[HTML]: Hyper\n\n    the HTML spec\n    *[HTML]: x\n\n    HTML".toList := by
+  decide +kernel
+-- … and what the model computes there with every extension on (by the kernel, not by the theorem)
+example : convertX everyExt {} "*[HTML]: Hyper\n\n    the HTML spec\n    *[HTML]: x\n\n    HTML".toList =
+    .ok "<pre><code>the HTML spec\n*[HTML]: x\n\nHTML\n</code></pre>".toList := by decide +kernel
+
+/-- **… and in a paragraph: wrapped outside the span, literal inside** (an instance, computed by the kernel on the
+    model with every extension on; the implementation agrees): the same word is an `<abbr>` in the text before and
+    after the code span and plain code inside it -/
+theorem C03X_abbr_wraps_outside_code_only :
+    convertX everyExt {} "*[HTML]: Hyper\n\nthe HTML spec `HTML` HTML".toList =
+      .ok "<p>the <abbr title=\"Hyper\">HTML</abbr> spec <code>HTML</code> <abbr title=\"Hyper\">HTML</abbr></p>".toList := by
+  decide +kernel
 
 end MdVerif.CodeX
